@@ -20,28 +20,35 @@ import signal
 from fractions import Fraction
 
 from vlib import harness, arith
-from vlib.harness import time_limit, Timeout, CaseInvalid, SelfTestError
+from vlib.harness import Timeout, CaseInvalid, SelfTestError
 
 ID = 'C05'
 RULE = ("One case = one goal term handed to one of the ten macros that theory.check_proof evaluates without expansion at "
         "check_level=0 (nat_eval, int_eval, int_const_ineq, real_eval, real_const_eq, real_compare, real_const_ineq, "
         "real_eq_comparison, real_norm, const_inequality), through a one-item kernel Proof checked by "
-        "theory.thy.check_proof (default level) in theory 'realintegral'. Goals come from a typed expression grammar "
-        "(numerals incl. 0, 1, negative, fractions, non-normal n/m and n/0, up to 10^40; + - * /, unary minus, inverse, Suc, "
-        "^ with natural / integer / fractional / negative exponents, of_nat, of_int, sqrt pi sin cos tan exp log abs atn); the "
-        "goal type is the macro's intended one in ~60% of the cases and one of the other two numeric types otherwise (same "
-        "grammar, other leaf type). Right-hand sides are drawn from: the true value (computed by the independent evaluator), "
-        "the value the same shape has at the macro's intended type (wrong semantics: untruncated minus), the true value "
-        "+- 1 unit in the 16th..40th significant digit, the exact image of the double nearest to the value +- 1 ulp, "
-        "value +- 1, a random numeral, a random expression. real_norm: an expression over real/nat variables against a "
-        "rearrangement of itself (AC moves, distribution, x-y = x+-y, x/c = x*(1/c), x^2 = x*x, unit insertion) with or "
-        "without one perturbed coefficient. real_eq_comparison: a linear comparison against a rewritten form (sides "
-        "swapped, terms moved, constant added, scaled) with or without a flipped / weakened relation. Oracle: "
-        "vlib/arith.py (exact Fractions, exact quadratic surds, mpmath.iv at 70 digits, three-valued) evaluates the "
-        "returned sequent at the types that occur in it; with free variables it is evaluated at 24-40 rational points. "
-        "Only a sequent evaluated FALSE (all hypotheses true, conclusion false; for open terms: at one concrete point) "
-        "is a violation. Non-trivial: the macro returned a theorem and the goal has >= 2 operators; distinct by the "
-        "canonical JSON of the case.")
+        "theory.thy.check_proof (default level) in theory 'realintegral'. (1) Enumerated sub-domain, per macro and per goal "
+        "type nat/int/real: every expression with <= 2 nested binary operators (+ - * / real-power) over 3-4 small leaves, "
+        "unary operators (Suc, uminus, inverse), powers ^0 ^2 ^3, of_nat / of_int of one-operator expressions, the numerals "
+        "1, 1/0, -(1/0); each against its true value, its value under wrong semantics (other truncation rule for minus, one "
+        "operator confusion such as x/0 = x) and value + 1; relation rotating through the macro's relations, negated every "
+        "third time where the macro handles negation. (2) Hypothesis: goals from a typed expression grammar (numerals "
+        "incl. negative, fractions, non-normal n/m and n/0, up to 10^40; + - * /, unary minus, inverse, Suc, ^ with natural / "
+        "integer / fractional / negative exponents, of_nat, of_int, sqrt pi sin cos tan cot sec csc exp log abs atn; depth "
+        "<= 4 quick, <= 6 thorough); the goal type is the macro's intended one in ~60% of the cases and one of the other two "
+        "numeric types otherwise (same grammar, other leaf type). Right-hand sides: the true value (independent evaluator), "
+        "the value under the other subtraction semantics, under one operator confusion, the true value +- 1 unit in the "
+        "16th..40th significant digit, a rational bound on the certain side of an irrational value at 3..40 digits, the exact "
+        "image of the nearest double +- 1 ulp, value +- 1, a random numeral, a random expression. real_norm: an expression over "
+        "real/nat variables against a rearrangement of itself (AC moves, distribution, x-y = x+-y, x/c = x*(1/c), x^2 = x*x, "
+        "unit insertion, constant folding) with or without one perturbed coefficient / mis-folded ground subterm. "
+        "real_eq_comparison: a linear comparison against a rewritten form (sides swapped, terms moved, constant added, scaled, "
+        "negated) with or without a flipped / weakened relation or shifted constant. Oracle: vlib/arith.py (exact Fractions, "
+        "exact quadratic surds, mpmath.iv at 70 digits, three-valued) evaluates the returned sequent at the types that occur "
+        "in it; sequents with free variables are evaluated at 32-40 rational points (small values, constants of the goal, "
+        "spread values). Only a sequent evaluated FALSE (all hypotheses true, conclusion false; open terms: at one concrete "
+        "point) is a violation; the signature names the root cause (goal-type-not-<T>: the same shape at the macro's intended "
+        "type would have been right; float-compare; float-power; in-domain). Non-trivial: the macro returned a theorem and the "
+        "goal has >= 2 operators; distinct by the canonical JSON of the case.")
 ASSUMPTIONS = [
     "truth of real power, sqrt of negatives, x/0 and inverse 0 follows the library definitions (transcendentals.json: "
     "HOL Light's rpow; real.json: sqrt, real_inv_0); log of a non-positive number, uminus on naturals and "
